@@ -413,19 +413,35 @@ Definition wr_bytes (fs : list (string * N)) (args : list N) (w : wr) : option b
   | _ => None
   end.
 
-Definition src_encode (enum fn : string) (i : instr) : option bytes :=
-  let '(kind, fs, args) := instr_view i in
+Definition arm_writes (enum fn kind : string) : option (list wr) :=
   match find (fun a : string * tm * tm => match a with (_, T "pstruct" (L path :: _), _) => String.eqb path (enum ++ "::" ++ kind) | _ => false end)
              (arms_of fn) with
-  | Some (_, _, body) => option_map (@List.concat N) (omap (wr_bytes fs args) (writes_of body))
+  | Some (_, _, body) => Some (writes_of body)
   | None => None
   end.
+
+Definition encode_writes (ws : list wr) (fs : list (string * N)) (args : list N) : option bytes :=
+  option_map (@List.concat N) (omap (wr_bytes fs args) ws).
+
+Definition src_encode (enum fn : string) (i : instr) : option bytes :=
+  let '(kind, fs, args) := instr_view i in
+  match arm_writes enum fn kind with
+  | Some ws => encode_writes ws fs args
+  | None => None
+  end.
+
+(* closed subterms are evaluated by the VM, the symbolic rest by cbn *)
+Ltac vmc t := let v := eval vm_compute in t in replace t with v by (vm_compute; reflexivity).
 
 Theorem src_encode_is_encode_instr : forall i : instr,
   src_encode "EncodedInstr" "EncodedInstr::write_to" i = Some (encode_instr i) /\
   src_encode "DecodedInstr" "DecodedInstr::write_to" i = Some (encode_instr i).
 Proof.
-  intro i. destruct i; split; cbv -[le app]; cbn [app]; rewrite ?app_nil_r; reflexivity.
+  intro i. destruct i; split; unfold src_encode, instr_view;
+    match goal with |- context [arm_writes ?e ?f ?k] => vmc (arm_writes e f k) end;
+    unfold encode_writes; cbn [omap wr_bytes];
+    repeat match goal with |- context [opcode_byte ?n] => vmc (opcode_byte n) end;
+    cbn -[le N.of_nat]; rewrite ?app_nil_r; reflexivity.
 Qed.
 
 (* ---- meaning 2: the reader arms are Loader.decode_instr --------------------------------------------------------- *)
@@ -441,29 +457,41 @@ Definition build_instr (kind : string) (vals : list N) : option instr :=
 
 (* decode one fixed-arity instruction with the extracted arm of its opcode: the widths read, in order, and the variant
    built from the values in the order of the struct literal's fields (which is the variant's declaration order) *)
-Definition src_decode_fixed (opname : string) (r : bytes) : option (instr * bytes) :=
+Definition arm_reads (opname : string) : option (list (string * nat) * string * list (string * string)) :=
   match find (fun a : string * tm * tm => match a with (_, T "Some" [L path], _) => String.eqb path ("OpCode::" ++ opname) | _ => false end)
              (arms_of "decode_instructions") with
-  | Some (_, _, body) =>
-      match read_arm body with
-      | Some (reads, spath, sfields) =>
-          match take_fields (map snd reads) r with
-          | Some (vals, r') =>
-              (* value read into variable v goes to the field initialised from v *)
-              match omap (fun fv : string * string => match index_of (snd fv) (map fst reads) with Some j => nth_error vals j | None => None end) sfields with
-              | Some ordered => option_map (fun i => (i, r')) (build_instr (substring 14 (String.length spath - 14) spath) ordered)
-              | None => None
-              end
-          | None => None
-          end
+  | Some (_, _, body) => read_arm body
+  | None => None
+  end.
+
+Definition decode_reads (rd : list (string * nat) * string * list (string * string)) (r : bytes) : option (instr * bytes) :=
+  let '(reads, spath, sfields) := rd in
+  match take_fields (map snd reads) r with
+  | Some (vals, r') =>
+      (* value read into variable v goes to the field initialised from v *)
+      match omap (fun fv : string * string => match index_of (snd fv) (map fst reads) with Some j => nth_error vals j | None => None end) sfields with
+      | Some ordered => option_map (fun i => (i, r')) (build_instr (substring 14 (String.length spath - 14) spath) ordered)
       | None => None
       end
   | None => None
   end.
 
+Definition src_decode_fixed (opname : string) (r : bytes) : option (instr * bytes) :=
+  match arm_reads opname with Some rd => decode_reads rd r | None => None end.
+
 Definition fixed_opcodes : list (string * N) :=
   [("ConstLoad", OP_CONSTLOAD); ("Return", OP_RETURN); ("NullOp", OP_NULLOP); ("Unop", OP_UNOP); ("Binop", OP_BINOP);
    ("Ternop", OP_TERNOP); ("Quadop", OP_QUADOP)].
+
+Lemma take_fields_length : forall (ws : list nat) (l : bytes) (vals : list N) (r : bytes),
+  take_fields ws l = Some (vals, r) -> List.length vals = List.length ws.
+Proof.
+  induction ws as [|w ws IH]; intros l vals r H; cbn [take_fields] in H.
+  - now injection H as <- <-.
+  - destruct (take w l) as [[f r1]|]; [|discriminate].
+    destruct (take_fields ws r1) as [[fs r2]|] eqn:E; [|discriminate].
+    injection H as <- <-. cbn [List.length]. f_equal. exact (IH _ _ _ E).
+Qed.
 
 Theorem src_decode_is_decode_instr : forall (name : string) (op : N) (r : bytes),
   In (name, op) fixed_opcodes -> 8 <= List.length (op :: r) ->
@@ -473,33 +501,40 @@ Proof.
   assert (Hl : Nat.ltb (List.length (op :: r)) 8 = false) by (apply Nat.ltb_ge; exact Hlen).
   unfold decode_instr. rewrite Hl. clear Hl Hlen.
   cbn [In fixed_opcodes] in Hin.
-  repeat (destruct Hin as [Hin|Hin]; [injection Hin as <- <-;
-    cbv -[take_fields]; destruct (take_fields _ r) as [[vals r']|]; [|reflexivity];
-    repeat (destruct vals as [|? vals]; try reflexivity)|]).
+  repeat (destruct Hin as [Hin|Hin]; [injection Hin as <- <-; unfold src_decode_fixed;
+    match goal with |- context [arm_reads ?n] => vmc (arm_reads n) end;
+    unfold decode_reads; cbn [map snd fst];
+    cbv [OP_CONSTLOAD OP_RETURN OP_NULLOP OP_UNOP OP_BINOP OP_TERNOP OP_QUADOP OP_VARARG]; cbn [N.eqb Pos.eqb];
+    match goal with |- context [take_fields ?ws r] =>
+      destruct (take_fields ws r) as [[vals r']|] eqn:E; [apply take_fields_length in E; cbn [List.length] in E|reflexivity] end;
+    repeat (destruct vals as [|? vals]; try discriminate E); reflexivity|]).
   destruct Hin.
 Qed.
 
 (* ---- meaning 3: the runner arm of an operation builds the plan step of Model/Bytecode.v ------------------------- *)
 (* registers named by the fields of an operation instruction *)
-Definition src_run (i : instr) : option (N * list N * list string) :=
-  let '(kind, fs, args) := instr_view i in
+Definition arm_run (kind : string) : option (list lv * list string) :=
   match find (fun a : string * tm * tm => match a with (_, T "pstruct" (L path :: _), _) => String.eqb path ("DecodedInstr::" ++ kind) | _ => false end)
              (arms_of "run_program") with
   | Some (_, _, body) =>
       match run_match body with
       | Some (_, T "arm" [_; _; T "block" stmts] :: _) =>
-          match scan_run [] stmts with
-          | Some (_, LReg o :: vs, events) =>
-              match field_val fs o,
-                    omap (fun v => match v with LReg f => option_map (fun x => [x]) (field_val fs f) | LRegs _ => Some args end) vs with
-              | Some out, Some regs => Some (out, List.concat regs, events)
-              | _, _ => None
-              end
-          | _ => None
-          end
+          match scan_run [] stmts with Some (_, vs, events) => Some (vs, events) | None => None end
       | _ => None
       end
   | None => None
+  end.
+
+Definition src_run (i : instr) : option (N * list N * list string) :=
+  let '(kind, fs, args) := instr_view i in
+  match arm_run kind with
+  | Some (LReg o :: vs, events) =>
+      match field_val fs o,
+            omap (fun v => match v with LReg f => option_map (fun x => [x]) (field_val fs f) | LRegs _ => Some args end) vs with
+      | Some out, Some regs => Some (out, List.concat regs, events)
+      | _, _ => None
+      end
+  | _ => None
   end.
 
 (* destination and operand registers of an operation instruction, as Model/Bytecode.decode_rinstr reads them *)
@@ -520,5 +555,7 @@ Theorem src_run_builds_step : forall (i : instr) (d : N) (ops : list N),
   op_regs i = Some (d, ops) -> src_run i = Some (d, ops, ["set-out"; "add-step"]).
 Proof.
   intros i d ops H. destruct i; cbn [op_regs] in H; try discriminate; injection H as <- <-;
-    cbv -[List.concat]; cbn [List.concat List.app]; rewrite ?app_nil_r; reflexivity.
+    unfold src_run, instr_view;
+    match goal with |- context [arm_run ?k] => vmc (arm_run k) end;
+    cbn; rewrite ?app_nil_r; reflexivity.
 Qed.
